@@ -10,6 +10,7 @@ def V(x):
     return {"k": "num", "n": x, "d": 1, "s": ""}
 
 def col(name, q=""): return {"t": "col", "q": q, "name": name}
+def star(q): return {"t": "star", "q": q}
 def lit(x): return {"t": "lit", "v": V(x)}
 def bin_(op, l, r): return {"t": "bin", "op": op, "l": l, "r": r}
 def un(op, e): return {"t": "un", "op": op, "e": e}
